@@ -1129,4 +1129,6 @@ def coq_term(case, obs):
             oz = "None" if o == "None" else f"(Some {C.clist(bt, nl)})"
             terms.append(f"c10_fetch_eqb (c10_fetch_run {nl(toks)} {C.cnat(case['bs'])} {zs} "
                          f"{C.cbool(bool(case['drop_last']))}) {oz}")
+    if not terms:
+        return None
     return "(" + " && ".join(terms) + ")"
